@@ -19,6 +19,10 @@ def build(variant=None):
     contrast.register(reg)
     conversions.register(reg)
     reg.mark_inline(*INLINE)
+    if variant in ('c14', 'c14pair'):
+        from . import c14
+        c14.register_c14(reg)
+        if variant == 'c14pair': c14.register_c14_pair(reg)
     if variant == 'c12':
         from . import bulk
         bulk.register_c12(reg)
